@@ -485,6 +485,12 @@ class JEval:
                 # Integer.compareUnsigned(x, y) OP 0  ==  x OP y on the unsigned views
                 x, y, _ = self.promote(a[1], a[2])
                 return Cond(CMP[k], x, y)
+            if k in ("EQUAL_TO", "NOT_EQUAL_TO") and isinstance(a, EnumV) and (isinstance(b, EnumV) or (isinstance(b, tuple) and b and b[0] == "static")):
+                # `x == Kind.A` on enum objects: reference comparison; against a value-tag singleton it selects like
+                # equals() (that it is written with == is reported by the reference-equality rule of C19)
+                c_ = self.call_equals(a, b)
+                if c_ is not None:
+                    return c_ if k == "EQUAL_TO" else c_.negate()
             a, b = self.as_int(a), self.as_int(b)
             if a is None or b is None:
                 return Cond("opaque", sym.sym(f"cmp#{self.nsym}"))
@@ -807,6 +813,9 @@ class JEval:
                 return self.widen(base.e, self.jty(n.get("t")))
             if name == "equals":
                 o = args[0] if args else None
+                c_ = self.call_equals(base, o)
+                if c_ is not None:
+                    return c_
                 if isinstance(o, tuple) and o and o[0] == "static" and base.e is not None:
                     meth = {8: "toByte", 16: "toShort", 32: "toInt", 64: "toLong"}.get(BITS.get(base.e.ty, 0))
                     cv = self.enum_const(o[1], o[2], meth) if meth else None
@@ -963,6 +972,20 @@ class JEval:
     # hooks ------------------------------------------------------------------
     def buf_call(self, buf, name, args, n):
         return Opaque(name)
+
+    def call_equals(self, base, o):
+        """EnumV.equals(static constant | EnumV) as a condition on the wire value, or None"""
+        if isinstance(o, tuple) and o and o[0] == "static" and base.e is not None:
+            meth = {8: "toByte", 16: "toShort", 32: "toInt", 64: "toLong"}.get(BITS.get(base.e.ty, 0))
+            cv = self.enum_const(o[1], o[2], meth) if meth else None
+            if cv is not None:
+                n_ = BITS[base.e.ty]
+                return Cond("eq", binop("and", self.widen(base.e, "i64"), const((1 << n_) - 1, "i64"), "w64"),
+                            const(cv.cval() & ((1 << n_) - 1), "i64"))
+        if isinstance(o, EnumV) and base.e is not None and o.e is not None:
+            a, b, _ = self.promote(base.e, o.e)
+            return Cond("eq", a, b)
+        return None
 
     def module_order(self):
         return "big" if self.jm.big else "little"
